@@ -158,7 +158,7 @@ def intersection(ctx, cell, tr, np_):
     L = lab(cell)
     # histograms of the test scores use the stored per-component support
     bh = [e for e in tr.calls() if e.d.get("fi") is not None and e.fi.name == "_build_histograms" and e.func.qualname == U]
-    ctx.ob("ROLE", U, "test histograms built [%s]" % L, len(bh) == 1, "")
+    ctx.anchor(U, "test histograms built [%s]" % L, len(bh) == 1, "")
     for e in bh:
         kw = dict(e.kwargs)
         rng = kw.get("bin_range")
